@@ -451,7 +451,7 @@ def upstream_flush_check(ch: Any, rule: str) -> int:
         for p in fpaths(g):
             ch.paths += 1
             fd = allfacts(p)
-            if fd.get(atom) is not True:
+            if fd.get(atom) is not True or p.coarse:
                 continue
             if fd.get('self.upstream.has_buffer()') is False or fd.get('self.upstream.closed') is True or fd.get('self.upstream') is False:
                 continue
